@@ -24,6 +24,10 @@ Fam(id) ==
                                  !.rhs = <<Plus(Tm, U(1)), Plus(Times(CI(2), X(1)), CI(1))>>, !.quads = <<Plus(X(1), X(2))>>]
     [] id = "F4" -> [Base EXCEPT !.states = <<S1>>, !.controls = <<Sym1>>,
                                  !.rhs = <<Plus(Times(CI(5), Sq(Sq(Tm))), U(1))>>, !.quads = <<Plus(X(1), Sq(Tm))>>]
+    [] id = "F5" -> [Base EXCEPT !.states = <<S1>>, !.controls = <<Sym1>>, !.algs = <<Sym1>>,
+                                 !.rhs = <<Plus(Z(1), Tm)>>, !.alg = <<Minus(Minus(Z(1), Times(CI(2), Tm)), U(1))>>,
+                                 !.quads = <<Plus(X(1), Z(1))>>]
+\* F5: index-1 DAE  x' = z + t ,  0 = z - 2t - u   (so z = 2t + u and x' = 3t + u);  integrand x + z
 \* exact state polynomials in absolute time t for x(t0) = x0, constant u, p
 IntFrom(p, t0) == LET P0 == PInt(p) IN PSub(P0, <<PEval(P0, t0)>>)       \* int_{t0}^t p
 ExactPolys(id, x0, u, p, t0) ==
@@ -31,9 +35,10 @@ ExactPolys(id, x0, u, p, t0) ==
     [] id = "F2" -> LET x1 == PAdd(<<x0[1]>>, IntFrom(<<u, One>>, t0))
                     IN <<x1, PAdd(<<x0[2]>>, IntFrom(PAdd(PScale(R(2), x1), <<One>>), t0))>>
     [] id = "F4" -> <<PAdd(<<x0[1]>>, IntFrom(<<u, Zero, Zero, Zero, R(5)>>, t0))>>
-QuadPoly(id, xs) == IF id = "F2" THEN PAdd(xs[1], xs[2]) ELSE PAdd(xs[1], <<Zero, Zero, One>>)
+    [] id = "F5" -> <<PAdd(<<x0[1]>>, IntFrom(<<u, R(3)>>, t0))>>
+QuadPoly(id, xs, u) == IF id = "F2" THEN PAdd(xs[1], xs[2]) ELSE IF id = "F5" THEN PAdd(xs[1], <<u, R(2)>>) ELSE PAdd(xs[1], <<Zero, Zero, One>>)
 
-Space == [fam : {"F1", "F2", "F4"}, M : {1, 2, 4, 8}, t0 : {Zero, Q(1, 2)}, T : {One, R(2)}, seed : {Seed, Seed + 1}]
+Space == [fam : {"F1", "F2", "F4", "F5"}, M : {1, 2, 4, 8}, t0 : {Zero, Q(1, 2)}, T : {One, R(2)}, seed : {Seed, Seed + 1}]
 Init == sc \in Space
 Next == UNCHANGED sc
 Emit ==
@@ -51,8 +56,10 @@ Emit ==
   IN TLCSet(1, Append(TLCGet(1),
        [sc |-> sc, decl |-> d0, x0 |-> x0, u |-> u, p |-> p,
         exact |-> [xf |-> Tup([i \in 1..Len(xs) |-> PEval(xs[i], tf)]),
-                   qf |-> <<Sub(PEval(PInt(QuadPoly(sc.fam, xs)), tf), PEval(PInt(QuadPoly(sc.fam, xs)), sc.t0))>>],
-        rk |-> scheme("rk"), euler |-> scheme("expl_euler")]))
+                   qf |-> <<Sub(PEval(PInt(QuadPoly(sc.fam, xs, u)), tf), PEval(PInt(QuadPoly(sc.fam, xs, u)), sc.t0))>>],
+        \* the explicit schemes do not apply to a DAE
+        rk |-> IF sc.fam = "F5" THEN [xf |-> <<>>, qf |-> <<>>] ELSE scheme("rk"),
+        euler |-> IF sc.fam = "F5" THEN [xf |-> <<>>, qf |-> <<>>] ELSE scheme("expl_euler")]))
 Post == /\ ndJsonSerialize(IOEnv.OUT_FILE, TLCGet(1)) /\ PrintT(<<"emitted", Len(TLCGet(1))>>)
 ASSUME TLCSet(1, <<>>)
 =============================================================================
